@@ -20,6 +20,8 @@ ADVERSARIAL_POOL = [
     "_", "_x", "__a", "X", "Abc", "camelCase", "UPPER_CASE", "a1", "z", "In", "Not", "IF", "Def",
     # names of the choice function's own parameters / of variables a code generator might use
     "population", "weights", "cum_weights", "input_id", "key", "composite_key", "args", "cls", "fn", "code_holder", "ast", "OR", "AND",
+    "fields", "source_code", "text", "name", "value", "values", "data", "payload", "inputs", "mapping", "items", "params", "options",
+    "config", "context", "request", "experiment", "evaluator", "result", "group", "variant", "salt_", "splitters_", "method", "n", "p",
 ]
 # K1 (known finding): DSL identifiers that are not usable as Python names in the generated code
 PY_RESERVED = set(keyword.kwlist) | {"True", "False", "None", "__debug__"}
